@@ -1,10 +1,11 @@
 \* spec-level controls, run with -continue: which WriterSpec variant violates which invariant.
 \* expected: good -> nothing; nodirsync -> only DurableWhenDone (not part of C06);
-\* nosync, rename_first, wrongfd, inplace -> OldOrNew and NoEarlyExposure
+\* nosync, rename_first, wrongfd, inplace -> OldOrNew and NoEarlyExposure;
+\* ignore_fsync_error (fault runs: at most MaxFaults calls fail) -> OldOrNew and NoEarlyExposure
 SPECIFICATION WriterSpec
 CONSTANTS
   MaxChunks = 2
-  Variants = {"good", "nosync", "rename_first", "wrongfd", "inplace", "nodirsync"}
+  Variants = {"good", "nosync", "rename_first", "wrongfd", "inplace", "nodirsync", "ignore_fsync_error"}
   AnyNames = {"target", "tmp"}
   AnyFileFds = {1}
   AnyDirFds = {2}
@@ -13,5 +14,7 @@ CONSTANTS
   AnyMaxHist = 4
   AnyMaxLen = 2
   AnyMaxSteps = 8
+  AnyFaults = TRUE
+  MaxFaults = 1
 INVARIANTS TypeOK OldOrNew NoEarlyExposure DurableWhenDone
 CHECK_DEADLOCK FALSE
